@@ -260,6 +260,44 @@ def check(ctx) -> None:
             gating[0].where(),
             "a spelling-observing test (substring, regex, text length or textual identity) on text that carries the given molecules gates the outcome (%s); it sees how and in which order the molecules are written" % "; ".join(o.detail for o in gating),
         )
+    # ---------------------------------------------------------------- S6
+    # composition mappings are filled in the order in which the elements occur in the SMILES: two such mappings may be
+    # compared key by key, never position by position
+    ctx.rule("C14-S6", "no two mappings are paired by position of their values()/items()/keys() sequences on the rule-based path", 1)
+
+    def order_view(e):
+        """the mapping expression whose iteration order `e` exposes as a sequence, else None"""
+        if isinstance(e, ast.Call) and isinstance(e.func, ast.Name) and e.func.id in ("list", "tuple") and len(e.args) == 1:
+            e = e.args[0]
+            seq = True
+        else:
+            seq = False
+        if isinstance(e, ast.Call) and isinstance(e.func, ast.Attribute) and e.func.attr in ("values", "items", "keys") and not e.args:
+            return unparse(e.func.value), seq
+        return None
+
+    n_funcs = 0
+    for q in sorted(path):
+        g = prog.functions.get(q)
+        if g is None:
+            continue
+        n_funcs += 1
+        for n in own_nodes(g.node):
+            pair = None
+            if isinstance(n, ast.Compare) and len(n.ops) == 1 and isinstance(n.ops[0], (ast.Eq, ast.NotEq, ast.Lt, ast.LtE, ast.Gt, ast.GtE)):
+                a, b = order_view(n.left), order_view(n.comparators[0])
+                # dict views compare as sets (items/keys) - only materialised sequences compare by position
+                if a and b and a[0] != b[0] and a[1] and b[1]:
+                    pair = (a[0], b[0])
+            elif isinstance(n, ast.Call) and isinstance(n.func, ast.Name) and n.func.id == "zip":
+                views = [order_view(a) for a in n.args]
+                srcs = [v[0] for v in views if v]
+                if len(set(srcs)) >= 2:
+                    pair = (srcs[0], [x for x in srcs if x != srcs[0]][0])
+            if pair:
+                ctx.instance("C14-S6", "%s pairs %s and %s by position" % (g.name, pair[0], pair[1]), g.loc(n), ok=False)
+                ctx.finding("C14-S6", "%s:positional-pairing-of-mappings" % q.split("synrbl.", 1)[-1].split(".", 1)[-1], g.loc(n), "`%s` pairs the entries of %s and %s by position; the order of a composition mapping is the order in which the elements first occur in the SMILES, so two spellings of one reaction can be judged differently" % (unparse(n)[:70], pair[0], pair[1]))
+    ctx.instance("C14-S6", "%d function(s) on the rule-based path scanned for positional pairing of two mappings" % n_funcs, "", ok=True)
     # S4: the carbon label counts molecules, not distinct spellings (shared with C07-E6)
     from . import c07
 
